@@ -71,12 +71,27 @@ fn main() {
         case += 1;
         let outer = base.join(format!("c{case}")); let root = outer.join("ws");
         fs::create_dir_all(root.join("d")).unwrap(); fs::write(root.join("a.txt"), "old").unwrap();
+        // files next to every possible target, named like a staging file could be named: the tool must leave them alone
+        for sib in ["a.txt.tmp", "a.tmp", "a.txt~", "d/b.txt.tmp", "d/b.tmp", ".hidden.tmp", "a b.tmp", "d/keep.txt"] { fs::write(root.join(sib), "keep").unwrap(); }
+        let files_before: std::collections::BTreeMap<String, Vec<u8>> = listing(&root).into_iter().filter_map(|e| fs::read(root.join(&e)).ok().map(|b| (e, b))).collect();
         ARGS.with(|a| *a.borrow_mut() = Some(WriteArgs { path: p.to_string(), content: "x".into(), append, create, atomic }));
         let cfg = BuiltinToolConfig { workspace_root: root.clone() };
         let out = run_write(ToolInvocation { name: "write".into(), args: serde_json::Value, timeout_ms: None }, &cfg);
         let outside: Vec<String> = listing(&outer).into_iter().filter(|e| e != "ws" && !e.starts_with("ws/")).collect();
         if !outside.is_empty() {
             println!("WITNESS {{\"function\": \"run_write\", \"path_argument\": {:?}, \"append\": {:?}, \"atomic\": {:?}, \"create\": {:?}, \"exit_code\": {}, \"created_outside_the_workspace_root\": {:?}}}", p, append, atomic, create, out.exit_code, outside);
+            let _ = fs::remove_dir_all(&base); return;
+        }
+        // the write tool changes no file but the one named by its path argument - the file its automatic checkpoint covers
+        // (files_for_invocation: exactly [path]); anything else it touched could not be brought back by a rewind
+        let files_after: std::collections::BTreeMap<String, Vec<u8>> = listing(&root).into_iter().filter_map(|e| fs::read(root.join(&e)).ok().map(|b| (e, b))).collect();
+        let target: String = Path::new(p).components().filter(|c| matches!(c, std::path::Component::Normal(_))).map(|c| c.as_os_str().to_string_lossy().to_string()).collect::<Vec<_>>().join("/");
+        let mut touched: Vec<String> = Vec::new();
+        for (k, v) in &files_before { if files_after.get(k) != Some(v) { touched.push(k.clone()); } }
+        for k in files_after.keys() { if !files_before.contains_key(k) { touched.push(k.clone()); } }
+        touched.retain(|k| *k != target);
+        if !touched.is_empty() {
+            println!("WITNESS {{\"function\": \"run_write\", \"path_argument\": {:?}, \"append\": {:?}, \"atomic\": {:?}, \"create\": {:?}, \"exit_code\": {}, \"files_changed_besides_the_target\": {:?}, \"problem\": \"the write tool changed a file its automatic checkpoint does not cover\"}}", p, append, atomic, create, out.exit_code, touched);
             let _ = fs::remove_dir_all(&base); return;
         }
         let _ = fs::remove_dir_all(&outer);
